@@ -173,7 +173,27 @@ def main():
                 plain["data_config"].pop("test_file_path", None)
             if job["model"] == "centered_instance":
                 plain["data_config"]["preprocessing"]["crop_hw"] = None
-        if job["structured"]:
+        if job.get("bare"):
+            # the configuration classes with nothing but the required entries (and what keeps the run small and on the CPU):
+            # every other option stays at its schema default - null sections, no seed, no scheduler, ...
+            from sleap_nn.config.training_job_config import TrainingJobConfig
+            from sleap_nn.config.data_config import DataConfig
+            from sleap_nn.config import model_config as M
+            from sleap_nn.config.trainer_config import TrainerConfig, WandBConfig
+            hc = {"single_instance": lambda: M.HeadConfig(single_instance=M.SingleInstanceConfig(confmaps=M.SingleInstanceConfMapsConfig())),
+                  "centered_instance": lambda: M.HeadConfig(centered_instance=M.CenteredInstanceConfig(confmaps=M.CenteredInstanceConfMapsConfig())),
+                  "centroid": lambda: M.HeadConfig(centroid=M.CentroidConfig(confmaps=M.CentroidConfMapsConfig())),
+                  "bottomup": lambda: M.HeadConfig(bottomup=M.BottomUpConfig(confmaps=M.BottomUpConfMapsConfig(), pafs=M.PAFConfig()))}[job["model"]]()
+            dkw = dict(train_labels_path=plain["data_config"]["train_labels_path"], val_labels_path=plain["data_config"]["val_labels_path"])
+            if job["fw"] != "torch_dataset":
+                dkw.update(data_pipeline_fw=job["fw"], np_chunks_path=chunk_dir)
+            tkw = dict(max_epochs=1, steps_per_epoch=1, trainer_accelerator="cpu", trainer_devices=1, enable_progress_bar=False,
+                       save_ckpt=job["ckpt"], save_ckpt_path=(None if job.get("cwd_out") else out_dir))
+            if job["wandb"]:
+                tkw.update(use_wandb=True, wandb=WandBConfig(wandb_mode="offline", project="verif", name="run", api_key=token))
+            cfg = TrainingJobConfig(data_config=DataConfig(**dkw), model_config=M.ModelConfig(backbone_config=M.BackboneConfig(unet=M.UNetConfig(filters=8, max_stride=8)), head_configs=hc),
+                                    trainer_config=TrainerConfig(**tkw)).to_sleap_nn_cfg()
+        elif job["structured"]:
             from sleap_nn.config.training_job_config import TrainingJobConfig
             from sleap_nn.config.data_config import DataConfig
             from sleap_nn.config.model_config import ModelConfig
